@@ -254,8 +254,26 @@ impl DnsCache {
             }
         }
 
-        // get the existing records for the type.
         let entry_name_lower = entry_name.to_lowercase();
+
+        // A record that is not for us can only update what is already cached:
+        // do not create an (empty) list for its name.
+        if !is_for_us {
+            let known = match incoming.get_type() {
+                RRType::PTR => self.ptr.get(&entry_name),
+                RRType::SRV => self.srv.get(&entry_name),
+                RRType::TXT => self.txt.get(&entry_name),
+                RRType::A | RRType::AAAA => self.addr.get(&entry_name_lower),
+                RRType::NSEC => self.nsec.get(&entry_name),
+                _ => None,
+            };
+            if known.map_or(true, |records| records.is_empty()) {
+                trace!("add_or_update: not for us: {}", incoming.get_name());
+                return None;
+            }
+        }
+
+        // get the existing records for the type.
         let record_vec = match incoming.get_type() {
             RRType::PTR => self.ptr.entry(entry_name).or_default(),
             RRType::SRV => self.srv.entry(entry_name).or_default(),
@@ -443,6 +461,9 @@ impl DnsCache {
                 !expired
             });
         }
+
+        // Do not keep an empty list for a service type.
+        self.ptr.retain(|_, records| !records.is_empty());
 
         // SRV, TXT and NSEC records that no PTR record points to (any more)
         // expire like all others.
